@@ -79,6 +79,8 @@ def parse_out(line):
             r["vars"] = vs
         elif t.startswith("RUN="):
             r["run"] = [items(it, ",") for it in items(t[4:], ";")]
+        elif t.startswith("FDLEAK="):
+            r["fdleak"] = int(t[7:])
         elif t.startswith("VALID="):
             r["valid"] = t[6:]
         elif t == "TERM-EXN" or t == "TERM-OOB":
